@@ -406,6 +406,38 @@ def residual_case(ctx, K, d, es, inits, t, num, time_dep):
     compare(ctx, "residual_route.coeffs", "residual:coeffs", out, exact, scale, desc, tol=TOL_RESIDUAL)
 
 
+def shared_jit_case(ctx):
+    """One routine compiled once with the problem as a *static* jit argument (as in the repository's examples) and applied
+    to two different problems of the same signature one after the other: the second call must return the coefficients
+    of the second problem (seeded change C10-s7: problems that compare / hash equal by their printed signature share
+    a jit cache entry)."""
+    import jax
+    import jax.numpy as jnp
+    from probdiffeq import probdiffeq
+
+    u0 = jnp.asarray([0.5, -0.25])
+    t0 = 0.25
+    fields = [lambda u, /, *, t: 0.5 * u * (1 - u) + t, lambda u, /, *, t: -1.5 * u + 0.25 * u**2 - 2.0 * t]
+    for name, make in (("padded_scan", lambda: probdiffeq.jetexpand_ode_padded_scan(num=3)), ("unroll", lambda: probdiffeq.jetexpand_ode_unroll(num=3)),
+                       ("via_jvp", lambda: probdiffeq.jetexpand_ode_via_jvp(num=3))):
+        alg = make()
+        jitted = jax.jit(lambda ode, inits, t: alg(ode, inits, t=t)[0], static_argnums=(0,))
+        outs = []
+        for f in fields:
+            ode = probdiffeq.ode(f)
+            got = np.stack([np.asarray(x) for x in jitted(ode, (u0,), t0)])
+            ref = np.stack([np.asarray(x) for x in make()(probdiffeq.ode(f), (u0,), t=t0)[0]])
+            outs.append((got, ref))
+        case = {"routine": name, "mode": "one jitted callable (problem as static argument), two problems in a row", "u0": [0.5, -0.25], "t0": t0,
+                "fields": ["0.5 u (1-u) + t", "-1.5 u + 0.25 u^2 - 2 t"]}
+        ctx.case(case)
+        ctx.count("shared-jit")
+        for k, (got, ref) in enumerate(outs):
+            dev = float(np.max(np.abs(got - ref) / (np.abs(ref) + 1e-3 * np.max(np.abs(ref)))))
+            ctx.dev("shared-jit.coeffs", dev, 1e-12, case=dict(case, problem=k), sig=f"{name}:shared-jit:problem-{k}",
+                    what=f"{name} compiled once and applied to problem {k}: coefficients deviate by {dev:.2e} from the eager call on the same problem")
+
+
 def implicit_series(a, b, c, e, u0, v0_unused, t0, n):
     """exact Taylor coefficients (unnormalised derivatives u, u', ..., u^(n)) of the solution of the implicit problem
     u' + a u'^3 = b u + c t + e, u(t0) = u0, on the branch u'(t0) = r (e is chosen by the caller such that r is rational);
@@ -513,6 +545,7 @@ def run(ctx):
         done += 1
 
     implicit_residual_corpus(ctx)
+    shared_jit_case(ctx)
     # residual route (Gauss-Newton on a diffuse prior)
     n_res = ctx.n(4, 30)
     for i in range(n_res):
